@@ -10,11 +10,14 @@ use super::{
 use crate::{
     armor::{BlockType, DearmorOptions},
     composed::{message::Message, shared::is_binary, Edata, Esk, SignaturePacket},
-    errors::{bail, format_err, unimplemented_err, Result},
+    errors::{bail, ensure, format_err, unimplemented_err, Result},
     packet::{ProtectedDataConfig, SymEncryptedProtectedDataConfig},
     parsing_reader::BufReadParsing,
     types::{PkeskVersion, SkeskVersion, Tag},
 };
+
+/// Maximum number of compression and encryption layers that are unwrapped around a message.
+const MAX_NESTING_DEPTH: usize = 32;
 
 struct MessageParser<'a> {
     messages: Vec<SignaturePacket>,
@@ -342,7 +345,14 @@ impl<'a> Message<'a> {
         Message::internal_from_bytes(source, is_nested)
     }
 
-    fn internal_from_bytes(source: MessageReader<'a>, is_nested: bool) -> Result<Self> {
+    fn internal_from_bytes(mut source: MessageReader<'a>, is_nested: bool) -> Result<Self> {
+        // Every layer adds stack frames to each read, and to dropping the message.
+        ensure!(
+            source.nesting_depth() <= MAX_NESTING_DEPTH,
+            "message is nested more than {} layers deep",
+            MAX_NESTING_DEPTH
+        );
+
         let packets = crate::packet::PacketParser::new(source);
 
         match MessageParser::new(packets, is_nested).run()? {
